@@ -82,7 +82,7 @@ theorem ops_step {w : Wiring} {s s' : AState} {σ : C02St} {l : Label} (hf : fre
   · cases l <;> simp [Label.isOpEdge] at hedge
     case begin o h k =>
       simp only [step] at hs
-      obtain ⟨_, _, st, hops', hout⟩ := stepBegin_spec hs
+      obtain ⟨_, _, st, hops', hout⟩ := stepBegin_spec02 hs
       simp only [freshFor] at hf
       intro r' hr'
       rw [hops'] at hr'
